@@ -7,7 +7,7 @@ from symx.engine import site
 ID = "C18"
 MODULES = ["hta.common.trace_filter", "hta.common.trace_symbol_table"]
 MUST_NOT_RAISE = True
-BUDGET_S = {"quick": 300, "thorough": 2400}
+BUDGET_S = {"quick": 300, "thorough": 1200}
 VOCAB = ["aten::mm", "cudaLaunchKernel", "gemm_kernel", "Event Sync", "Context Sync", "Memcpy DtoD (Device -> Device)",
          "ncclKernel_AllReduce", "cpu_op", "kernel", "gpu_memcpy", "cuda_sync", "cuda_runtime"]
 NAMES = VOCAB[:7]
